@@ -183,7 +183,7 @@ def run_history(rng, counters, digests, samples, violations, known, nops, world_
         if bad:
             report("index supports inconsistent after %s: %s" % (op[0], bad[:3]), index=bad[:6])
             return
-    if mgrmon.has_structural_cycle(ls.runner.mgr):
+    if mgrmon.shadow_structural_cycle(hg.shadow, ls.runner):
         counters["histories_skipped_structural_cycle"] = counters.get("histories_skipped_structural_cycle", 0) + 1
         return
     # ---- twin comparison ------------------------------------------------------------
